@@ -236,6 +236,29 @@ func tokenCuts(pool *sb.Pool, src string, tmpl bool) []int {
 
 // ---- error locations ----
 
+// locExprContexts: the faulting expression sits on a line of its own inside a construct that spans
+// several lines; the reported line must be the expression's, not the construct's first line.
+var locExprContexts = []struct {
+	Name      string
+	Pre, Post []string
+}{
+	{"array-element", []string{"$zzA = [", "1,"}, []string{",", "3,", "];"}},
+	{"call-argument", []string{"var_dump(", "1,"}, []string{");"}},
+	{"concat-operand", []string{"$zzS = 'a' ."}, []string{". 'c';"}},
+	{"ternary-branch", []string{"$zzT = true", "?"}, []string{": 0;"}},
+	{"assignment-rhs", []string{"$zzR ="}, []string{";"}},
+	// second line of a double-quoted string that spans lines (only the method-call fault fits here)
+	{"interpolation-line2", []string{"$zzE = new Exception('x');", "$zzI = \"first"}, []string{"third\";"}},
+}
+
+// the runtime faults as expressions (no trailing semicolon)
+var locExprFaults = []struct{ Name, Expr string }{
+	{"undefined-function", "undefined_fn_xyz()"},
+	{"undefined-method", "(new Exception('x'))->noSuchMethod()"},
+	{"undefined-class", "new NoSuchClassXyz()"},
+	{"modulo-by-zero", "1 % 0"},
+}
+
 var locFaults = []struct {
 	Name, Stmt, Kind string
 }{
@@ -247,6 +270,7 @@ var locFaults = []struct {
 	{"parse:missing-rparen", "$zz7 = (1 + 2;", "parse"},
 	{"parse:missing-rparen-if", "if ($zz6 == 1 { echo 1; }", "parse"},
 	{"parse:double-comma", "strlen('a',, 2);", "parse"},
+	{"line-constant", "echo \"\\nLINE=\" . __LINE__ . \"=\\n\"; undefined_fn_after_line();", "runtime"},
 }
 
 // locContexts wrap the planted statement: the error is raised somewhere else than in the statement
@@ -269,6 +293,8 @@ var locContexts = []struct {
 	{"fn-called-from-fn-in-for", []string{"function zzf() {"}, []string{"}", "function zzg() {", "zzf();", "return 1;", "}", "for ($zzi = 0; $zzi < 1; $zzi++) {", "$zzr = zzg();", "}"}},
 }
 
+var primaryLocRe = regexp.MustCompile(` in (\S*):(\d+):(\d+)\s*$`)
+
 var locRe = regexp.MustCompile(`([^\s:'"(]+\.php):(\d+)(?::(\d+))?`)
 
 func c18JudgeLocation(rec *sb.Rec, dir string, c c18Case) *failure {
@@ -285,12 +311,46 @@ func c18JudgeLocation(rec *sb.Rec, dir string, c c18Case) *failure {
 		return nil
 	}
 	all := r.Stderr + "\n" + r.Stdout
+	if strings.HasPrefix(c.Fault, "line-constant") {
+		// __LINE__ must evaluate to the line it is written on
+		m := regexp.MustCompile(`LINE=(\d+)=`).FindStringSubmatch(r.Stdout)
+		if m == nil {
+			return &failure{Key: "cell:location:" + c.Fault + ":no-value", Detail: fmt.Sprintf("__LINE__ planted on line %d printed nothing: %s", c.Line, clip(all, 300)), Case: c}
+		}
+		if n, _ := strconv.Atoi(m[1]); n != c.Line {
+			return &failure{Key: "cell:location:" + c.Fault + ":wrong-value", Detail: fmt.Sprintf("__LINE__ on line %d evaluates to %d", c.Line, n), Case: c}
+		}
+	}
 	mk := func(rel, d string) *failure {
 		return &failure{Key: fmt.Sprintf("cell:location:%s:%s", c.Fault, rel), Detail: fmt.Sprintf("fault %q planted on line %d: %s\n  diagnostic: %s", c.Fault, c.Line, d, clip(strings.TrimSpace(all[len(r.Stdout)*0:]), 400)), Case: c}
 	}
 	if r.Exit == 0 && !strings.Contains(all, "rror") && !strings.Contains(all, "错误") {
 		rec.Label("location.fault-accepted-silently:"+c.Fault, "")
 		return nil
+	}
+	// the location of the diagnostic itself: "... error: <message> in <file>:<line>:<col>" on the first error line
+	for _, ln := range strings.Split(all, "\n") {
+		if !strings.Contains(ln, "rror") && !strings.Contains(ln, "错误") {
+			continue
+		}
+		if m := primaryLocRe.FindStringSubmatch(ln); m != nil {
+			n, _ := strconv.Atoi(m[2])
+			switch {
+			case !strings.HasSuffix(m[1], "loc.php"):
+				return mk("diagnostic-names-no-script-line", fmt.Sprintf("the diagnostic's own location is %q (the stack trace may still name the line)", m[1]+":"+m[2]))
+			case n != c.Line:
+				rel := "later-line"
+				if n < c.Line {
+					rel = "earlier-line"
+				}
+				if n == 1 && c.Line != 1 {
+					rel = "reports-line-1"
+				}
+				return mk(rel, fmt.Sprintf("the diagnostic's own location is line %d", n))
+			}
+			return nil
+		}
+		break
 	}
 	ms := locRe.FindAllStringSubmatch(all, -1)
 	var lines []int
@@ -320,7 +380,7 @@ func TestC18(t *testing.T) {
 	cfg := sb.LoadConfig("C18")
 	rec := sb.NewRec(cfg)
 	defer rec.Flush()
-	rec.R.Rule = "(a) span invariants on every corpus file (tests/**, examples/**, .php in template mode, .zy in plain mode) and on generated programs, intact and with 1-3 seeded injections at token boundaries (multi-byte identifiers and strings, CRLF, line / hash / block comments, heredoc, nowdoc, nested interpolation, full-width space, inline HTML); (b) error locations: generated programs (one statement per line) with exactly one planted fault (throw, modulo by zero, undefined function / method / class, three parse faults) moved across all top-level statement positions, the runtime faults also wrapped in 11 contexts (loop / if bodies, a function or method called from a for / while / foreach / if body, a call chain), run through the CLI. Non-trivial = the input contains an injected feature before its last token / the planted line is not 1; distinct by source text."
+	rec.R.Rule = "(a) span invariants on every corpus file (tests/**, examples/**, .php in template mode, .zy in plain mode) and on generated programs, intact and with 1-3 seeded injections at token boundaries (multi-byte identifiers and strings, CRLF, line / hash / block comments, heredoc, nowdoc, nested interpolation, full-width space, inline HTML); (b) error locations: generated programs (one statement per line) with exactly one planted fault (throw, modulo by zero, undefined function / method / class, three parse faults) moved across all top-level statement positions, the runtime faults also wrapped in 11 contexts (loop / if bodies, a function or method called from a for / while / foreach / if body, a call chain) and, as expressions on a line of their own, inside 5 multi-line constructs (array literal, call arguments, concatenation, ternary, assignment), run through the CLI. Non-trivial = the input contains an injected feature before its last token / the planted line is not 1; distinct by source text."
 	pool := &sb.Pool{}
 	defer pool.Close()
 	dl := time.Now().Add(budget(cfg, 70, 800))
@@ -380,6 +440,7 @@ func TestC18(t *testing.T) {
 	gcfg.MaxFuncs = 1
 	gcfg.Exclude = c02Exclusions(cfg.Root)
 	locDone := 0
+	exprDone := 0
 	rapidLoop(t, rec, "loc", nloc, nloc, dl, func(rt *rapid.T) *failure {
 		p := pgen.Gen(rt, gcfg)
 		if _, err := pgen.Run(p); err != nil {
@@ -431,6 +492,37 @@ func TestC18(t *testing.T) {
 						return f
 					}
 					rec.Fail(f.Key, f.Detail, f.Case)
+				}
+			}
+			// expression faults inside multi-line constructs: all 20 (context, fault) pairs in thorough,
+			// a rotating five per insertion point in quick
+			for ci, ec := range locExprContexts {
+				for fi, ef := range locExprFaults {
+					exprDone++
+					if exprDone%cfg.NShards != cfg.Shard {
+						continue
+					}
+					if !cfg.Thorough() && (ci+fi+exprDone/cfg.NShards/24)%4 != 0 && ec.Name != "interpolation-line2" {
+						continue
+					}
+					mid := ef.Expr
+					if ec.Name == "interpolation-line2" {
+						if ef.Name != "undefined-method" {
+							continue
+						}
+						mid = "second {$zzE->noSuchMethod()}"
+					}
+					block := append(append(append([]string{}, ec.Pre...), mid), ec.Post...)
+					nl := append(append(append([]string{}, lines[:at]...), block...), lines[at:]...)
+					c := c18Case{Src: strings.Join(nl, "\n") + "\n", Tmpl: true, Kind: "location", Fault: ef.Name + "@" + ec.Name, Line: at + 1 + len(ec.Pre)}
+					rec.NonTrivial(c.Src)
+					rec.Label("location."+c.Fault, c.Src)
+					if f := c18JudgeLocation(rec, dir, c); f != nil {
+						if !rec.IsKnown(f.Key) {
+							return f
+						}
+						rec.Fail(f.Key, f.Detail, f.Case)
+					}
 				}
 			}
 		}
